@@ -65,6 +65,18 @@ def contains(a: Any, b: Any) -> bool:
     return id(b) in reachable([a])
 
 
+def _id_overlap(a: Any, r: Any) -> bool:
+    ids_a = {n.id for n in reachable([a]).values()}
+    ids_r = {n.id for n in reachable([r]).values()}
+    p = r.parent
+    hops = 0
+    while p is not None and hops < 50:
+        ids_r.add(p.id)
+        p = p.parent
+        hops += 1
+    return bool(ids_a & ids_r)
+
+
 def rebuild_content_id(n: Any) -> str:
     """content_id of an independently built equal tree (DESIGN appendix A.8): the same
     structure constructed normally while the registry is swapped for an empty one."""
@@ -430,6 +442,10 @@ def make_harness(K: int, which: str, first_ops: list[str] | None = None, later_o
                 a = handles[e.choice(len(handles), f"arg{step}")]
                 if a is r:
                     e.assume(False)
+            # ... and so are histories that would build a cycle through a stale twin: an argument that
+            # contains a node carrying the id of the receiver, of one of its descendants or ancestors
+            if op == "transform-return-existing" and _id_overlap(a, r):
+                e.assume(False)
             # histories that would put one object at two positions are outside the statement:
             if op == "replace_with" and (contains(a, r) or contains(r, a)):
                 e.assume(False)
@@ -443,6 +459,7 @@ def make_harness(K: int, which: str, first_ops: list[str] | None = None, later_o
                 if contains(a, r) or contains(r, a) or sum(1 for x in reachable([r]).values() if isinstance(x, LZ.LLeaf)) != 1:
                     e.assume(False)
             text = f"{op}({', '.join(describe_node(x, handles) for x in (r, a) if x is not None)})"
+            e.note(f"forest{fno}: {' ; '.join(history)} ; then {text}")
             before = snapshot(handles + roots)
             known = reachable(handles + roots)
             reg_before = {k: id(v) for k, v in LZ.AwareASTNode._nodes.items()}
